@@ -4,11 +4,12 @@
 (* Part 1  index grammar as data                                              *)
 (* Part 2  Get(rows, ix): the DEFINITION -- what the same index expression    *)
 (*         returns on a Python list of per-row numpy arrays                   *)
-(* Part 3  the pinned implementation's flat-offset arithmetic, transcribed    *)
-(*         from enspara/ra/ra.py (_slice_to_list, _get_iis_from_slices,       *)
+(* Part 3  the implementation's flat-offset arithmetic, transcribed from       *)
+(*         enspara/ra/ra.py (_slice_to_list, _get_iis_from_slices,            *)
 (*         _get_iis_from_list, where/_convert_from_1d, _convert_from_2d with  *)
 (*         _handle_negative_indices and the bounds check, the result          *)
-(*         constructor), as operators and as a step machine                   *)
+(*         constructor), as operators and as a step machine; constant Patched *)
+(*         selects the pinned tree or the tree with the proposed repairs      *)
 (* Part 4  index classes, and the design-level statement: for which classes   *)
 (*         the transcription equals the definition                            *)
 (* Part 5  enumeration scope, Init/Next, emission for replay                  *)
@@ -288,10 +289,12 @@ ClassG(ls, x, g) ==        \* g = Get(RowsOf(ls), x), passed in to avoid recompu
 
 Class(ls, x) == ClassG(ls, x, Get(RowsOf(ls), x))
 
-(* Design-level result (TLC, all shapes with <= 4 rows of length <= 4, bounds *)
-(* -5..5): the pinned arithmetic equals the definition on every class that is *)
-(* not listed here; on the classes of DepartAlways it differs on EVERY case,  *)
-(* on those of DepartSometimes on some.                                       *)
+(* Design-level result, checked by TLC on every case it enumerates (ReadEq,    *)
+(* DepartAlwaysIsTight on the step machine; the `ok` field of EmitCase on the  *)
+(* emitted cases; scopes in props/c05.py): the pinned arithmetic equals the    *)
+(* definition on every class that is not listed here; on the classes of        *)
+(* DepartAlways it differs on EVERY case, on those of DepartSometimes on some. *)
+(* With the proposed repairs (Patched) it equals the definition everywhere.    *)
 DepartAlways ==
   IF Patched THEN {} ELSE
   {"(I,I)/plain",                  \* a one-element array instead of the element
